@@ -107,6 +107,16 @@ CHECKS.update({
         ref='3/C08'),
 })
 
+CHECKS.update({
+    'C17': dict(
+        technique='property-based testing of generated shutdown schedules in the simulator; invariant oracle over trace, callback log, task outcomes and the loop exception handler',
+        text=SIM + 'async_close() is requested at generated instants (grid around registration steps, queued answers, TC holds, browser start-up, pending lookups) '
+             'on a victim with an active peer; nothing may be sent or called back after close returned, in-flight coroutines finish with documented outcomes, '
+             'registered services get three complete goodbyes, a second close is silent, 3 h of virtual time stay quiet.',
+        note='async path only (Zeroconf.close() from a thread shares the logic but the thread hand-off is not executed); virtual-time busy loops are reported via an iteration budget',
+        ref='3/C17'),
+})
+
 NOT_YET = {
 }
 
